@@ -108,6 +108,29 @@ def build_cases(ctx, n_stmts, muts, n_soups, n_gram=30):
         for s, types, used in gen[:n_stmts]:
             for kind, m in mutations(d, s, rng, limit=4):
                 cases.append((m, d, 'grammar-' + kind))
+    # lexeme-class substitutions on the production-cover sentences: every name position gets every shape of dotted path
+    # (a star / a number / a quoted part in any place), every number position gets every boundary spelling of a number
+    PATHS_ = ['a.*.b', '*.a', 'a.b.c.d.e', '`a`.*', 'a.`*`', 'a.1', '`a b`.`c.d`', 'a.*.*', 'a.b.*']
+    NUMS_ = ['9' * 400 + '.5', '0', '1.5', '.5', '5.', '1e5', '00012', '9' * 30, '0.0', '-' + '9' * 400 + '.5']
+    for d in DIALECTS:
+        subs_id, subs_num = [], []
+        for s_, types, _u in grammargen.cover_texts(ctx, d, variants=1):
+            sp = lex_spans(d, s_)
+            if not sp or len(sp) > 60:
+                continue
+            for ty, a_, b_ in sp:
+                if ty in ('ID', 'DQUOTE_STRING'):       # the shortest spelling of a name in the cover sentences is "x"
+                    subs_id += [(s_[:a_] + v_ + s_[b_:], d, 'path-substitution') for v_ in PATHS_]
+                    subs_num += [(s_[:a_] + v_ + s_[b_:], d, 'number-substitution') for v_ in NUMS_[:3] + NUMS_[-1:]]
+                elif ty in ('INTEGER', 'FLOAT', 'VARIABLE', 'QUOTE_STRING'):   # ... and of a value is @x
+                    subs_num += [(s_[:a_] + v_ + s_[b_:], d, 'number-substitution') for v_ in NUMS_]
+                    subs_id += [(s_[:a_] + v_ + s_[b_:], d, 'path-substitution') for v_ in PATHS_[:2]]
+        if n_stmts < 1000:      # quick tier: a seeded sample of the name positions, all number positions
+            rng.shuffle(subs_id)
+            subs_id = subs_id[:6000 if d == 'mindsdb' else 1500]
+            rng.shuffle(subs_num)
+            subs_num = subs_num[:8000 if d == 'mindsdb' else 3000]
+        cases += subs_id + subs_num
     seen = set()
     out = []
     for c in cases:
